@@ -459,53 +459,3 @@ c09_whole_t! {c09_for_each_range_i8, i8, |a, b| [a..b], a..b, 255}
 c09_whole_t! {c09_for_each_range_rev_i8, i8, |a, b| [a..b, rev()], (a..b).rev(), 255}
 c09_whole_t! {c09_for_each_rangeinc_i8, i8, |a, b| [a..=b], a..=b, 256}
 c09_whole_t! {c09_for_each_rangeinc_rev_i8, i8, |a, b| [a..=b, rev()], (a..=b).rev(), 256}
-
-harness! {
-    /// kind=complete tier=thorough bound="experiment"
-    #[kani::unwind(258)]
-    fn c09_xp_nth(s) {
-        let a = s.u8();
-        let b = s.u8();
-        let sd = a..b;
-        let mut n = 0usize;
-        for_each! {x in a..b =>
-            chk!(s, sd.clone().nth(n) == Some(x), "C09.for_each.item_in_order_eq_std");
-            n += 1;
-        }
-        chk!(s, n == sd.clone().count(), "C09.for_each.same_length_as_std");
-        cov!(s, n == 255, "C09.cover.for_each_whole_type");
-    }
-}
-
-harness! {
-    /// kind=complete tier=thorough bound="experiment"
-    #[kani::unwind(258)]
-    fn c09_xp_closed(s) {
-        let a = s.u8();
-        let b = s.u8();
-        let mut n = 0usize;
-        for_each! {x in a..b =>
-            chk!(s, x as usize == a as usize + n, "C09.for_each.item_in_order_eq_std");
-            n += 1;
-        }
-        chk!(s, n == (a..b).count(), "C09.for_each.same_length_as_std");
-        cov!(s, n == 255, "C09.cover.for_each_whole_type");
-    }
-}
-
-harness! {
-    /// kind=complete tier=thorough bound="experiment"
-    #[kani::unwind(258)]
-    fn c09_xp_nocheck(s) {
-        let a = s.u8();
-        let b = s.u8();
-        let mut n = 0usize;
-        let mut sum = 0usize;
-        for_each! {x in a..b =>
-            sum += x as usize;
-            n += 1;
-        }
-        chk!(s, n == (a..b).count(), "C09.for_each.same_length_as_std");
-        cov!(s, n == 255, "C09.cover.for_each_whole_type");
-    }
-}
